@@ -4,6 +4,8 @@ Implementations of IInput
 import logging
 from datetime import datetime
 
+import numpy as np
+
 from ..data import tools
 from ..data.tools import Info
 from ..errors import FinamMetaDataError
@@ -211,6 +213,11 @@ class Input(IInput, Loggable):
         self._in_info_exchanged = True
         with ErrorLogger(self.logger):
             self._transform = src_info.grid.get_transform_to(self._input_info.grid)
+            mask = src_info.mask
+            if self._transform is not None and tools.mask_specified(mask):
+                if mask is not None and np.ndim(mask) > 0:
+                    # the mask is given for the source grid, bring it to the input's grid layout
+                    self._input_info.mask = self._transform(mask)
 
         # pylint: disable-next=fixme
         # TODO: check if this is correct (was src_info before)
